@@ -330,8 +330,59 @@ pub const SCALE_WORDS: &[&str] = &[
     "a=%sysfunc(f(", "\"", "'", "%nrstr(", "%m(a=", "&", "%", ")", "%end; ", "\"a\"\"b\" ", "1e5 ", "'41'x ",
 ];
 
+/// (prefix, repeated word, suffix): repetition *inside* one construct - arguments of one call,
+/// operands of one expression, parameters of one definition, parts of one string
+pub const SCALE_CTX: &[(&str, &str, &str)] = &[
+    ("%m(", "a b,", "c)"),
+    ("%m(", "a=1,", "b)"),
+    ("%m(", "a,", ")"),
+    ("%m(", "%n,", ")"),
+    ("%eval(", "1+", "1)"),
+    ("%eval(", "(", "1"),
+    ("%if ", "1 and ", "1 %then;"),
+    ("%let a=", "&v ", ";"),
+    ("%let ", "&v", "=1;"),
+    ("\"", "&v ", "\""),
+    ("\"", "%m() ", "\""),
+    ("%macro m(", "a,", "b);%mend;"),
+    ("%macro m(", "a=(,),", "b);%mend;"),
+    ("%str(", "%(", ")"),
+    ("%str(", "(", ")"),
+    ("%sysfunc(f(", "1,", "1))"),
+    ("%scan(a,1,", "(", ")"),
+    ("x=", "(", "1;"),
+    ("x=a", "||b", ";"),
+    ("%local ", "a ", ";"),
+    ("%put ", "&&", "v;"),
+    ("", "%do;", ""),
+    ("", "%do;%end;", ""),
+    ("%macro m;", "%if 1 %then %do;", "%mend;"),
+    ("datalines;\n", "1 2\n", ";"),
+    ("", "&", "v"),
+];
+
+/// repetition counts around every power of two up to 2^8 (a window, a small fixed-size table, an
+/// inline capacity) - used for every scale word and scale context
+pub const SMALL_KS: &[usize] = &[2, 3, 4, 5, 7, 8, 9, 15, 16, 17, 31, 32, 33, 39, 40, 41, 63, 64, 65, 127, 128, 129, 255, 256];
+
 pub fn scale_inputs(tier: Tier) -> Vec<(String, usize)> {
     let mut v: Vec<(String, usize)> = Vec::new();
+    for (p, w, s) in SCALE_CTX {
+        let big: &[usize] = if tier == Tier::Quick { &[257, 4_100] } else { &[257, 4_100, 66_000] };
+        for k in SMALL_KS.iter().chain(big) {
+            // encoded as one word: prefix \u{2} word \u{2} suffix (see make_scale)
+            let nests = p.ends_with('(') && !w.contains(')') || w.contains("%do;") && !w.contains("%end");
+            if nests && cfg!(debug_assertions) && *k > 4_100 {
+                continue;
+            }
+            v.push((format!("{p}\u{2}{w}\u{2}{s}"), *k));
+        }
+    }
+    for w in SCALE_WORDS {
+        for k in SMALL_KS {
+            v.push(((*w).to_string(), *k));
+        }
+    }
     for a in spaces::s9_core() {
         v.push((a, 300));
     }
@@ -362,7 +413,15 @@ pub fn make_scale_pub(item: &(String, usize), buf: &mut String) {
 
 fn make_scale(item: &(String, usize), buf: &mut String) {
     // "w\u{1}" marks "repeat w, then close with `;`"
-    if let Some(w) = item.0.strip_suffix('\u{1}') {
+    if item.0.contains('\u{2}') {
+        let mut parts = item.0.split('\u{2}');
+        let (p, w, s) = (parts.next().unwrap_or(""), parts.next().unwrap_or(""), parts.next().unwrap_or(""));
+        buf.push_str(p);
+        for _ in 0..item.1 {
+            buf.push_str(w);
+        }
+        buf.push_str(s);
+    } else if let Some(w) = item.0.strip_suffix('\u{1}') {
         for _ in 0..item.1 {
             buf.push_str(w);
         }
@@ -448,6 +507,27 @@ pub fn structural(prop: &'static str, cfg: &Config) -> PropRun {
     }
     if cfg.only_spaces.is_empty() {
         report.absorb(run_scale(prop, cfg, &ex));
+    }
+    if matches!(prop, "C07" | "C06" | "C01") && cfg.only_spaces.is_empty() {
+        // every pair of characters (all of ASCII incl. controls, three non-ASCII digits/letters)
+        // in the digit positions of a hex string literal, both quote kinds, both suffix cases
+        let mut chars: Vec<char> = (0u8..=0x7f).map(char::from).collect();
+        chars.extend(['\u{e9}', '\u{ff11}', '\u{661}']);
+        let n = chars.len() as u64;
+        report.absorb(ex.run_list(
+            "hex-pair sweep (q c1 c2 q x)",
+            4 * n * n,
+            |i, buf| {
+                let (k, i) = (i % 4, i / 4);
+                let (q, sfx) = [('\'', 'x'), ('\'', 'X'), ('"', 'x'), ('"', 'X')][k as usize];
+                buf.push(q);
+                buf.push(chars[(i / n) as usize]);
+                buf.push(chars[(i % n) as usize]);
+                buf.push(q);
+                buf.push(sfx);
+            },
+            |local, input, _| visit_text(prop, local, input),
+        ));
     }
     if matches!(prop, "C01" | "C02" | "C09" | "C10") && cfg.only_spaces.is_empty() {
         report.absorb(run_program_truncations(prop, cfg, &ex));
